@@ -141,6 +141,29 @@ theorem flush_calls (fx : Fixes) {t : Tree} {out : FlushOut} (hf : flush fx t = 
   · right; simp [he]
   · left; simp [he]
 
+/-- The calls of any flush: none, or a prefix followed by `_do_restore` on the tree the flush leaves. -/
+theorem flush_calls_cases (fx : Fixes) {t : Tree} {out : FlushOut} (hf : flush fx t = .ok out) :
+    out.calls = [] ∨ ∃ c1 c2, out.calls = c1 ++ c2 ∧ doRestore fx out.tree = .ok c2 := by
+  unfold flush at hf
+  split at hf
+  · simp only [pure_ok] at hf; subst hf; exact .inl rfl
+  · simp only [bind_ok] at hf
+    obtain ⟨t1, _, hf⟩ := hf
+    unfold flushRestore at hf
+    split at hf
+    · simp only [bind_ok, pure_ok] at hf
+      obtain ⟨c2, hc2, hf⟩ := hf
+      subst hf
+      exact .inr ⟨_, c2, rfl, hc2⟩
+    · next hnr =>
+      simp only [pure_ok] at hf
+      subst hf
+      left
+      show (if t1.root.needsExpose then [TermCall.vis 0] else []) = []
+      by_cases he : t1.root.needsExpose = true
+      · exfalso; apply hnr; unfold flushExpose; simp [he]
+      · simp [he]
+
 /-- After a flush that had a restore or an expose pending, the mock terminal reports the cursor the property demands
     of the tree as the flush leaves it. -/
 theorem flush_spec_mock (fx : Fixes) {t : Tree} {out : FlushOut} (hf : flush fx t = .ok out)
